@@ -451,7 +451,7 @@ Proof.
 Qed.
 
 (* ctx lists a file context: leaving the contexts closes the file *)
-Definition has_file (ctx : list string) : bool := existsb (fun c => negb (String.eqb c "stream")) ctx.
+Definition has_file (ctx : list string) : bool := existsb (fun c => negb (String.eqb c "STREAM")) ctx.
 
 Definition is_exit (s : step) : Prop := s = SCloseStream \/ s = SCloseFile.
 Definition settled (v : vstate) : Prop :=
@@ -490,7 +490,7 @@ Proof.
   intros ctx v Hf.
   assert (Hall : Forall is_exit (exit_steps ctx)).
   { unfold exit_steps. apply Forall_forall. intros s Hs. apply in_map_iff in Hs.
-    destruct Hs as [c [<- _]]. unfold is_exit. destruct (String.eqb c "stream"); auto. }
+    destruct Hs as [c [<- _]]. unfold is_exit. destruct (String.eqb c "STREAM"); auto. }
   assert (Hin : In SCloseFile (exit_steps ctx)).
   { unfold has_file in Hf. apply existsb_exists in Hf. destruct Hf as [c [Hc Hn]].
     unfold exit_steps. apply in_map_iff. exists c. split; [|now apply in_rev in Hc].
@@ -544,7 +544,7 @@ Qed.
 (* the structural fact is necessary: with the reply inside the `async with` a backend that
    buffers shows other sessions a stale file at the time of the 226 *)
 Lemma reply_inside_ctx_stale :
-  v_at_reply (v_run [9%Z] (stor_script false ["file_out"; "stream"] WB 0 [[1%Z]; [2%Z]] []))
+  v_at_reply (v_run [9%Z] (stor_script false ["FILE"; "STREAM"] WB 0 [[1%Z]; [2%Z]] []))
   = Some ([], true).
 Proof. reflexivity. Qed.
 
@@ -635,32 +635,28 @@ Qed.
 Theorem check_dispatch_facts_sound : forall ws hs d,
   check_dispatch_facts ws hs d = true ->
   (exists sw, find_worker "stor_worker" ws = Some sw
-              /\ stor_table_ok (w_open_modes sw) /\ w_reply_after_ctx sw = true
-              /\ w_ctx sw = [["file_out"; "stream"]])
+              /\ stor_table_ok (w_open_modes sw) /\ w_reply_after_ctx sw = true)
   /\ (exists rw, find_worker "retr_worker" ws = Some rw
-              /\ retr_table_ok (w_open_modes rw) /\ w_reply_after_ctx rw = true
-              /\ w_ctx rw = [["file_in"; "stream"]])
+              /\ retr_table_ok (w_open_modes rw) /\ w_reply_after_ctx rw = true)
   /\ (exists ap, find_handler "appe" hs = Some ap /\ h_delegate ap = Some "stor")
   /\ exempt_ok (d_table d) (d_reset_exempt d)
   /\ d_reset_exempt d = ["retr"; "stor"; "appe"].
 Proof.
   intros ws hs d H. unfold check_dispatch_facts in H. rewrite !andb_true_iff in H.
   destruct H as [[[[[[[Hs Hr] Ha] _] _] He] Htab] _].
-  assert (W : forall name modes ctx, check_worker ws name modes ctx = true ->
+  assert (W : forall name modes, check_worker ws name modes = true ->
               exists w, find_worker name ws = Some w /\ w_open_modes w = modes
-                        /\ w_reply_after_ctx w = true /\ w_ctx w = [ctx]).
-  { intros name modes ctx Hc. unfold check_worker in Hc.
+                        /\ w_reply_after_ctx w = true).
+  { intros name modes Hc. unfold check_worker in Hc.
     destruct (find_worker name ws) as [w|]; [|discriminate]. exists w.
-    rewrite !andb_true_iff in Hc. destruct Hc as [[[[Hm Hra] _] Hctx] _].
-    apply list_string_eqb_eq in Hm.
-    destruct (w_ctx w) as [|c [|c' r]]; try discriminate. apply list_string_eqb_eq in Hctx.
-    subst. auto. }
+    rewrite !andb_true_iff in Hc. destruct Hc as [[[[Hm Hra] _] _] _].
+    apply list_string_eqb_eq in Hm. subst. auto. }
   apply list_string_eqb_eq in He.
   split; [|split; [|split; [|split]]].
-  - destruct (W _ _ _ Hs) as [w [Hf [Hm [Hra Hctx]]]]. exists w. rewrite Hm.
-    split; [exact Hf|split; [exact expected_stor_table_ok|split; assumption]].
-  - destruct (W _ _ _ Hr) as [w [Hf [Hm [Hra Hctx]]]]. exists w. rewrite Hm.
-    split; [exact Hf|split; [exact expected_retr_table_ok|split; assumption]].
+  - destruct (W _ _ Hs) as [w [Hf [Hm Hra]]]. exists w. rewrite Hm.
+    split; [exact Hf|split; [exact expected_stor_table_ok|assumption]].
+  - destruct (W _ _ Hr) as [w [Hf [Hm Hra]]]. exists w. rewrite Hm.
+    split; [exact Hf|split; [exact expected_retr_table_ok|assumption]].
   - destruct (find_handler "appe" hs) as [h|]; [|discriminate]. exists h. split; [reflexivity|].
     destruct (h_delegate h) as [t|]; [|discriminate]. apply String.eqb_eq in Ha. now subst.
   - rewrite forallb_forall in Htab.
@@ -675,8 +671,17 @@ Lemma check_xfer_verb_modes : forall f, check_xfer_facts f = true ->
   verb_mode f "stor" = Some WB /\ verb_mode f "appe" = Some AB.
 Proof.
   intros f H. unfold check_xfer_facts, check_xfer_modes in H. rewrite !andb_true_iff in H.
-  destruct H as [[Hs Ha] _]. apply String.eqb_eq in Hs. apply String.eqb_eq in Ha.
+  destruct H as [[[[Hs Ha] _] _] _]. apply String.eqb_eq in Hs. apply String.eqb_eq in Ha.
   unfold verb_mode. rewrite Hs, Ha. split; reflexivity.
+Qed.
+
+Lemma check_xfer_ctx : forall f, check_xfer_facts f = true -> has_file (xf_stor_ctx f) = true.
+Proof.
+  intros f H. unfold check_xfer_facts, check_xfer_modes in H. rewrite !andb_true_iff in H.
+  destruct H as [[[[_ _] Hc] _] _]. unfold ctx_roles_ok in Hc. rewrite !andb_true_iff in Hc.
+  destruct Hc as [[_ Hfile] _]. unfold mem_s in Hfile. apply existsb_exists in Hfile.
+  destruct Hfile as [c [Hin Hc]]. apply String.eqb_eq in Hc. subst c.
+  unfold has_file. apply existsb_exists. exists "FILE". split; [exact Hin|reflexivity].
 Qed.
 
 Lemma verb_mode_store : forall f verb vm, check_xfer_facts f = true ->
@@ -725,24 +730,22 @@ Section Checked.
     now apply retr_exact.
   Qed.
 
-  Theorem visible_after_226_checked : forall sw verb vm ctx m off old block payload segs oracle flushes,
+  Theorem visible_after_226_checked : forall sw verb vm m off old block payload segs oracle flushes,
     find_worker "stor_worker" ws = Some sw ->
-    w_ctx sw = [ctx] ->
     verb_mode f verb = Some vm ->
     1 <= block -> concat segs = payload ->
     select_mode (w_open_modes sw) vm (negb (off =? 0)) = Some m ->
-    v_at_reply (v_run old (stor_script (w_reply_after_ctx sw) ctx m off
+    v_at_reply (v_run old (stor_script (w_reply_after_ctx sw) (xf_stor_ctx f) m off
                                        (iter_blocks (sock_trace block oracle segs)) flushes))
     = Some (spec_store vm off payload old, false).
   Proof.
-    intros sw verb vm ctx m off old block payload segs oracle flushes Hsw Hctx Hvm Hb Hs Hm.
-    destruct (check_dispatch_facts_sound _ _ _ Hdisp) as [[sw' [Hsw' [Ht [Hra Hc]]]] _].
+    intros sw verb vm m off old block payload segs oracle flushes Hsw Hvm Hb Hs Hm.
+    destruct (check_dispatch_facts_sound _ _ _ Hdisp) as [[sw' [Hsw' [Ht Hra]]] _].
     rewrite Hsw in Hsw'. injection Hsw' as <-. rewrite Hra.
-    rewrite Hctx in Hc. injection Hc as ->.
+    pose proof (check_xfer_ctx _ Hxfer) as Hfile.
     destruct (verb_mode_store _ _ _ Hxfer Hvm) as [Hst _].
     apply visible_after_226 with (table := w_open_modes sw) (block := block); try assumption.
-    - rewrite <- Hs. now apply sock_trace_conforming.
-    - reflexivity.
+    rewrite <- Hs. now apply sock_trace_conforming.
   Qed.
 
   Theorem rest_survives_checked : forall hist off0 passive verb off,
